@@ -7,10 +7,15 @@ import (
 	"go/constant"
 	"go/token"
 	"go/types"
+	"os"
+	"strings"
 	"sync"
 
 	"golang.org/x/tools/go/ssa"
 )
+
+var traceFn = os.Getenv("GOSYM_TRACE")
+var debugPanics = os.Getenv("GOSYM_DEBUG_PANICS") != ""
 
 type Program struct {
 	prog     *ssa.Program
@@ -381,7 +386,15 @@ func (w *W) runBlocks(fr *frame) {
 				w.noteInconclusive("step budget exceeded")
 				w.abort("budget", "step budget %d exceeded in %s", w.maxSteps, fr.info.name)
 			}
-			switch w.exec(fr, ci) {
+			c := w.exec(fr, ci)
+			if traceFn != "" && strings.Contains(fr.info.name, traceFn) {
+				res := ""
+				if ci.dst >= 0 {
+					res = " => " + describe(fr.regs[ci.dst])
+				}
+				fmt.Fprintf(os.Stderr, "[trace] %s: %v%s\n", fr.info.name, ci.ins, res)
+			}
+			switch c {
 			case kNext:
 			case kJump:
 				break instrs
@@ -446,9 +459,15 @@ func (w *W) site(fr *frame, ins ssa.Instruction) string {
 }
 
 func (w *W) rtPanic(fr *frame, ins ssa.Instruction, msg string) {
-	site := fr.info.name
-	if ins != nil {
-		site = w.site(fr, ins)
+	site := ""
+	if fr != nil {
+		site = fr.info.name
+		if ins != nil {
+			site = w.site(fr, ins)
+		}
+	}
+	if debugPanics {
+		fmt.Fprintf(os.Stderr, "[gosym] runtime panic %q at %s stack: %s\n", msg, site, w.stackString())
 	}
 	panic(goPanic{v: w.runtimeError(msg), site: site})
 }
@@ -650,7 +669,7 @@ func (w *W) load(fr *frame, ins ssa.Instruction, x Value) Value {
 func (w *W) storeTo(fr *frame, ins ssa.Instruction, addr, v Value) {
 	switch p := addr.p.(type) {
 	case *Value:
-		w.store(p, copyVal(v))
+		w.assign(p, v)
 		return
 	case *SymPtr:
 		w.symStore(p, v)
@@ -699,7 +718,7 @@ func (w *W) symStore(p *SymPtr, v Value) {
 		return
 	}
 	i := w.concretize(p.idx, "index of non-scalar element (store)")
-	w.store(&p.base[i], copyVal(v))
+	w.assign(&p.base[i], v)
 }
 
 // boundsCheck forks on 0 <= idx < n for a symbolic index; returns true if in range.
